@@ -130,6 +130,15 @@ impl Grapheme {
         is_non_ascii_char_escaped: bool,
         is_astral_code_point_converted_to_surrogate: bool,
     ) {
+        // Nested repetitions are printed instead of the characters
+        // of this grapheme, so they need to be escaped as well.
+        for repetition in self.repetitions.iter_mut() {
+            repetition.escape_regexp_symbols(
+                is_non_ascii_char_escaped,
+                is_astral_code_point_converted_to_surrogate,
+            );
+        }
+
         let characters = self.chars_mut();
 
         #[allow(clippy::needless_range_loop)]
